@@ -719,7 +719,7 @@ def sample_repr(sc):
 
 
 GROUP_KEYS = ("oracle", "part", "fix", "mode", "exc", "key", "empty", "k")
-BUDGET = {"quick": 5000, "thorough": 100000}
+BUDGET = {"quick": 25000, "thorough": 100000}
 WALL_CAP = {"quick": 300, "thorough": 3000}
 RULE = (
     "run i derives a small data directory (1..5 utterances, T <= 8, prefix/suffix/sub-directory naming, 1-D or 2-D references with known, missing "
